@@ -77,7 +77,7 @@ def SExpr.cden : SExpr → Bool → Option Nat
   | .un k s, st => (k.mapClean (s.cden st)).1
   | .filter _ s, st => s.cden st
   | .stopImmediately s, st => if st then none else s.cden false
-  | .takeUntil s t, _ => (match s.cden true with | some e => some e | none => t.cden false)
+  | .takeUntil s t, _ => firstErr (s.cden true) (t.cden false)
   | _, _ => none
 
 /-- reduce_stream / for_each over the elements `l` ending with `t`: the elements handed to the
